@@ -345,11 +345,11 @@ def r_forest_validators(model, rep):
     anc = [ev for ev in cx.events if ev.kind == "raise" and any(
         g[1] and g[0][0] == "cmp" and g[0][1] == ("in",) and g[0][2][0] == var
         and T.contains(g[0][2][1], lambda x: x[0] == "call" and x[1] == ("attr", ("param", cx.selfname), "_get_all_parents"))
-        for g in ev.guards)]
+        for g in [facts.canon_guard_pair(g_) for g_ in ev.guards])]
     rep.ob("R-FOREST-VALIDATORS", "VariantBase.add:ancestor-check", bool(anc), site=cx.site(f.node),
            msg="" if anc else "no refusal when the variant is one of the receiver's ancestors (cycle check)")
     if anc:
-        extra = [g for g in T.guard_tests(anc[0]) if not (g[0][0] == "cmp" and g[0][1] == ("in",))
+        extra = [g for g in [facts.canon_guard_pair(g_) for g_ in T.guard_tests(anc[0])] if not (g[0][0] == "cmp" and g[0][1] == ("in",))
                  and T.show(g[0]) not in ("hasattr(self, 'parent')",)]
         rep.ob("R-FOREST-VALIDATORS", "VariantBase.add:ancestor-check-guard", not extra, site=cx.site(anc[0].lineno),
                msg="" if not extra else "ancestor check is additionally conditional on %s" % [T.show(g[0]) for g in extra])
